@@ -50,7 +50,7 @@ CASES = [
          old="""        self._len_scale, self._anis = set_len_anis(
             self.dim, len_scale, self.anis, self.latlon
         )
-        self.check_arg_bounds()
+        self._check_or_restore(_len_scale=old[0], _anis=old[1])
 
     @property
     def rescale(self):""",
